@@ -44,6 +44,9 @@ def build_vh():
     """Rebuild the harness from /repo's *current working tree*, hooks on."""
     with Lock("go"):
         shutil.copyfile(os.path.join(REPO, "go.sum"), os.path.join(VERIF, "harness", "go.sum"))
+        if REPO != "/repo":  # scratch copies used during development point the harness at their own worktree
+            sh(["go", "mod", "edit", "-replace", "github.com/sassoftware/relic/v8=" + REPO],
+               cwd=os.path.join(VERIF, "harness"), env=GOENV)
         if os.path.exists(VH):
             os.remove(VH)
         r = sh(["go", "build", "-tags", "verif", "-o", VH, "./cmd/vh"], cwd=os.path.join(VERIF, "harness"), env=GOENV)
